@@ -160,7 +160,8 @@ def worker(k):
                 res["status"] = "survived-suite"
                 caught = None
                 ran = []
-                order = PROPS[m["file"]] + [p for p in ALL if p not in PROPS[m["file"]]]
+                # the checks of the properties this module serves; `--all` continues with the other checks when none of those reports
+                order = PROPS[m["file"]] + ([p for p in ALL if p not in PROPS[m["file"]]] if "--all" in sys.argv else [])
                 for p in order:
                     rc3, o3 = sh("bin/check %s quick" % p, cwd=verif, timeout=3600)
                     ran.append([p, rc3])
